@@ -61,9 +61,11 @@ CLAIMED['C15'] = dict(category='proof',
    text='The running-maximum updates of the real Assembly methods are proved as fold steps for arbitrary real '
         'temperatures on every comparison path: new peak is attained and bounds the old peak and all cells, the height '
         'changes iff the old peak is strictly exceeded, region duct d of n writes entry len-n+d and nothing else, and '
-        'the stored pin profile is the complete row (with this plane\'s z) of a pin attaining the new peak.',
+        'the stored pin profile is the complete row (with this plane\'s z) of a pin attaining the new peak, owned by the peak record. '
+        'Bounded: the duct temperature table lists, for each duct it shows, the peak of that duct (3 generated problems).',
    note=_ASSUME + 'Small array sizes (3 cells, 2-3 pins, 1-3 ducts) - the methods use only max/argmax over the arrays; '
-        'the whole-sweep claim is the induction over steps. Printed tables are not decided.',
+        'the whole-sweep claim is the induction over steps (Lean lemmas running_max_ge / running_max_attained, thorough tier). '
+        'Other printed tables are not decided.',
    technique='contract-based deductive verification (proxy execution with exhaustive path enumeration over comparisons)')
 CLAIMED['C05'] = dict(category='proof',
    text='The real mesh construction is verified with all lengths on the 1e-12 m rounding grid (integer atoms, np.around and '
@@ -92,7 +94,9 @@ CLAIMED['C19'] = dict(category='proof',
         'is >= nominal, non-decreasing in the output sigma, its statistical increment times the input sigma is independent '
         'of the input sigma, and each location adds at least its own rise (square-root monotonicity certificate). '
         '_get_peak_dt is proved to return the telescoping differences of the stored peak-pin profile above the inlet, '
-        '_split_clad_subfactors to duplicate the clad column and shift the later ones.',
+        '_split_clad_subfactors to duplicate the clad column and shift the later ones; analyze keeps every row with its assembly id; '
+        'the profile the rises are read from is the row of the peak pin at the peak height (contract on '
+        'Assembly._update_peak_pin_temps, shared with C15).',
    note=_ASSUME + 'Precondition IN_sigma > 0. Sizes 1-2 assemblies x 1-3 subfactors x 1-5 terms. eval() expressions and CSV '
         'parsing are not decided.',
    technique='contract-based deductive verification (proxy execution, exact normaliser with sqrt relations, sign certificates)')
@@ -102,7 +106,9 @@ CLAIMED['C20'] = dict(category='proof',
         'groups covering every assembly once and to move the cut-off towards the requested count; the code after the loop '
         'returns exactly the requested number of groups or stops with an error from every loop-exit state. One iteration of '
         'the flow redistribution loop conserves the total flow, keeps group members equal and keeps groups 0..N-2 within '
-        'the pressure-drop limit; the code after it returns only a conserved, consistent allocation.',
+        'the pressure-drop limit (per assembly type); the code after it returns only a conserved, consistent allocation. The code '
+        'before the loop starts from the flow that removes the total power at the target outlet temperature (first pass) or '
+        'from the previous total rescaled by the ratio of temperature rises (later passes).',
    note=_ASSUME + 'Response-curve interpolation is a dependency (any positive estimates). 4-6 assemblies, 2-4 groups '
         'enumerated. Known finding: the last group is not limited by the pressure-drop limit. Native grouping examples are '
         'a bounded supplement.',
@@ -113,7 +119,12 @@ CLAIMED['C16'] = dict(category='proof',
         'the AST of the real sources proves, function by function, that no statement stores through a reference derived '
         'from the parsed input, including references that escaped into object attributes (self.<path>) and are written '
         'by other methods later. Every finding is replayed by run-time frame contracts on the real constructors (deep '
-        'comparison before/after construction and sweep, second construction bitwise identical) on generated problems.',
+        'comparison before/after construction and sweep, second construction bitwise identical) on generated problems. '
+        'Ghost file system around the real Reactor._data_setup + _data_open (one unconstrained boolean per possibly existing '
+        'file): every dump file later opened for append is absent when set-up returns, nothing else is removed. '
+        'RoddedRegion._update_coolant_int_params + _MatTracker: the reference state of the property tracker is the state of '
+        'the last parameter calculation (never the construction-time state of the shared input material), and parameters '
+        'are recalculated iff a property moved by more than the tolerance.',
    note='Analyser assumptions (listed in the evidence): over-approximate call resolution, unresolved library calls assumed '
         'non-mutating, complete-copy detection uses a run-time type probe on sample inputs. The run-time contracts and the '
         'serial=parallel comparison are BOUNDED. Bitwise identity across processes / file-system layout not decided.',
@@ -149,7 +160,9 @@ CLAIMED['C12'] = dict(category='proof',
         'gradients Cf x^(2-m) De^-(1+m) in laminar (m=1) and turbulent (m=0.18) flow, and equality with the bundle gradient '
         'Cf_b De_b^-(1+m) - proved with exact power-law algebra over rational exponents. NOV and MIT splits: mass '
         'conservation and positivity. The transition / spacer-grid iteration (_iterate, loop cut from the source): every '
-        'returned triple conserves mass, is positive and equalises friction+grid gradients; _calc_ffb_tr is positive with '
+        'returned triple conserves mass, is positive and equalises friction+grid gradients, and the friction terms of the '
+        'iteration are those of the true subchannel Reynolds numbers (only the intermittency factor is clipped to [0,1]); '
+        'the set-up functions hand the iteration the regime-boundary quantities of the paper; _calc_ffb_tr is positive with '
         'the right limits; subchannel mass flows are area share x split. Bounded: all 120 accepted correlation triples x 7 '
         'Reynolds numbers incl. regime boundaries x spacer grid on/off evaluate without exception, conserve mass, give '
         'positive finite friction and non-negative finite mixing parameters.',
